@@ -157,3 +157,22 @@ def rule_id_keep(db: ProgramDB) -> List[Instance]:
 
 def rule_infer_one(db: ProgramDB) -> List[Instance]:
     return [i for i in rule_infer_one_per_binding(db) if i.rule == "INFER-ONE-PER-BINDING"]
+
+
+def rule_infer_not_truth(db: ProgramDB) -> List[Instance]:
+    """The instance constructed for an inferred variable is a value: whether the row is produced must not depend on the
+    instance's own truthiness (only a predicate's output is a truth value)."""
+    from .negation import variable_output_profile
+    out = []
+    m, res = variable_output_profile(db, predicate=False)
+    for k, reached in sorted(res.items()):
+        env = dict(k)
+        if env["invert"]:
+            continue
+        key = f"Variable._process_output_and_update_values_[constructed instance,truthy={env['truthy']},yield_when_false={env['ywf']}]"
+        ok = bool(reached)
+        out.append(inst("INFER-NOT-TRUTH", HOLDS if ok else VIOLATION, m, key,
+                        "the row of the constructed instance is produced" if ok else
+                        "the constructed instance is dropped because it is falsy (a class with __len__/__bool__): it was "
+                        "constructed and registered, but the rule does not return it"))
+    return out
